@@ -262,7 +262,10 @@ def _collected(func, name):
 
 
 def _index_iter(it, tgt):
-    """(table name, index var, element var) of `for i in range(len(T))` / `for i, e in enumerate(T)` / `for e in T`"""
+    """(table name, index var, element var) of `for i in range(len(T))` / `for i, e in enumerate(T)` / `for e in T`
+    (single-assignment helper locals such as `n = len(T)` are resolved first)"""
+    if _is_call(it, name='range'):
+        it = _deep(it, it)
     if _is_call(it, name='range') and not it.keywords and 1 <= len(it.args) <= 3 and isinstance(tgt, ast.Name):
         tabs = {n.args[0].id for a in it.args for n in ast.walk(a) if _is_call(n, name='len', nargs=1) and isinstance(n.args[0], ast.Name)}
         if len(tabs) == 1:
@@ -280,6 +283,7 @@ def _range_gap(it):
     indices of T that are not produced / produced outside T (None when the range is exactly 0 .. len(T)-1 or `it` is no range)"""
     if not (_is_call(it, name='range') and not it.keywords and 1 <= len(it.args) <= 3):
         return None
+    it = _deep(it, it)
     for n_ in (1, 2, 3, 6):
         try:
             args = [Evaluator({}, arith=True, funcs={'len': lambda t: n_}, leaf=lambda e: 'T' if isinstance(e, ast.Name) else NotImplemented).ev(a)
@@ -1053,6 +1057,9 @@ def _pairs_table(v, name, at):
     else:
         raise AnalysisError(f"make_vcd_func: source of {name} outside the understood shapes: {norm(it)}")
     v.table_gap = _range_gap(it)
+    # helper locals the source is computed from (e.g. `n = len(nets)`): they freeze the table size where THEY are assigned
+    v.table_helpers = [_lookup(n.id, c.node)[1][0][1] for n in ast.walk(c.src) if isinstance(n, ast.Name)
+                       and _unique_value(n.id, c.node) is not None and not isinstance(_unique_value(n.id, c.node), (ast.List, ast.Dict))]
     return (c.loop or c.node), nets, syms, ivar, c.conj, ok_pair
 
 
@@ -1200,11 +1207,15 @@ def rule_compress(repo):
                 if d_ is not None and d_ is not node and appends_tables(d_, tuple(seen) + (n.func.id,)):
                     return True
         return False
-    site = val
-    while site is not None and not any(site is s_ for s_ in v.mk.body):
-        site = parent(site)
+    sites = []
+    for site in [val] + list(getattr(v, 'table_helpers', []) if not getattr(v, 'inline', None) else []):
+        while site is not None and not any(site is s_ for s_ in v.mk.body):
+            site = parent(site)
+        if site is not None:
+            sites.append([i_ for i_, s_ in enumerate(v.mk.body) if s_ is site][0])
+    site = v.mk.body[min(sites)] if sites else None
     if site is not None:
-        k_site = [i_ for i_, s_ in enumerate(v.mk.body) if s_ is site][0]
+        k_site = min(sites)
         late = [s_ for s_ in v.mk.body[k_site + 1:] if not isinstance(s_, (ast.FunctionDef, ast.ClassDef)) and appends_tables(s_)]
         _chk(r, not late, m, v.q, f"{table} is computed after the last statement that extends {nets} / {syms}",
              f"`{norm(late[0])[:60]}` runs AFTER {table} was computed and appends further nets to {nets} / {syms} (the header recursion adds a "
@@ -3122,6 +3133,9 @@ MUTANTS = [
     _m2('polled-table-built-before-late-nets', 'R-C16-compress',
         (VCD, '    net_details = [ ( trimmed_value_nets[i][0], net_symbol_mapping[i] )\n                    for i in range(len(trimmed_value_nets))\n                      if i != vcd_clock_net_idx ]\n\n    # Flip clock for the first cycle', '    # Flip clock for the first cycle'),
         (VCD, '    # Inner utility function to perform recursive descent of the model.\n', '    net_details = [ ( trimmed_value_nets[i][0], net_symbol_mapping[i] )\n                    for i in range(len(trimmed_value_nets))\n                      if i != vcd_clock_net_idx ]\n\n    # Inner utility function to perform recursive descent of the model.\n')),
+    _m2('table-size-frozen-before-late-nets', 'R-C16-compress',
+        (VCD, '    # Inner utility function to perform recursive descent of the model.\n', '    num_nets = len(trimmed_value_nets)\n    # Inner utility function to perform recursive descent of the model.\n'),
+        (VCD, '    net_details = [ ( trimmed_value_nets[i][0], net_symbol_mapping[i] )\n                    for i in range(len(trimmed_value_nets))\n                      if i != vcd_clock_net_idx ]\n', '    net_details = [ ( trimmed_value_nets[i][0], net_symbol_mapping[i] )\n                    for i in range(num_nets)\n                      if i != vcd_clock_net_idx ]\n')),
     _m('var-name-keeps-dot', VCD, "repr(signal)[ len(m_name)+1: ]", "repr(signal)[ len(m_name): ]", 'R-C16-header'),
     _m('no-upscope', VCD, '      print( f"{spaces}$upscope $end", file=vcd_file )\n', "", 'R-C16-header'),
     _m('clock-index-off-by-one', VCD, "vcd_clock_net_idx = len(trimmed_value_nets)\n\n      if new_net:",
@@ -3264,6 +3278,9 @@ EQUIV = [
        "    top._dsl.all_named_objects |= added_components | added_signals | added_method_ports\n"),
     _m('signal-registrations-by-update', COMPONENT, "    top._dsl.all_signals       |= added_signals\n", "    top._dsl.all_signals.update( added_signals )\n"),
     _m('polled-table-before-clock-symbol', VCD, '    clock_symbol = net_symbol_mapping[ vcd_clock_net_idx ]\n\n    net_details = [ ( trimmed_value_nets[i][0], net_symbol_mapping[i] )\n                    for i in range(len(trimmed_value_nets))\n                      if i != vcd_clock_net_idx ]\n', '    net_details = [ ( trimmed_value_nets[i][0], net_symbol_mapping[i] )\n                    for i in range(len(trimmed_value_nets))\n                      if i != vcd_clock_net_idx ]\n\n    clock_symbol = net_symbol_mapping[ vcd_clock_net_idx ]\n'),
+    dict(name='table-size-in-helper-local', edits=[
+        dict(file=VCD, old='    last_values = [0 for _ in range(len(trimmed_value_nets))]\n', new='    num_nets = len(trimmed_value_nets)\n    last_values = [0 for _ in range(num_nets)]\n', count=1),
+        dict(file=VCD, old='    net_details = [ ( trimmed_value_nets[i][0], net_symbol_mapping[i] )\n                    for i in range(len(trimmed_value_nets))\n                      if i != vcd_clock_net_idx ]\n', new='    net_details = [ ( trimmed_value_nets[i][0], net_symbol_mapping[i] )\n                    for i in range(num_nets)\n                      if i != vcd_clock_net_idx ]\n', count=1)]),
     _m('dump-guard-flipped', PREP, "    if top.has_metadata( VcdGenerationPass.vcd_func ):\n      ret.append( top.get_metadata( VcdGenerationPass.vcd_func ) )\n",
        "    if not top.has_metadata( VcdGenerationPass.vcd_func ):\n      pass\n    else:\n      ret.append( top.get_metadata( VcdGenerationPass.vcd_func ) )\n"),
     _m('vcd-str-conditional-expression', BITS,
